@@ -38,9 +38,10 @@ func workerDir(w int) string { return filepath.Join(scratch, fmt.Sprintf("w%d", 
 
 // job: a sandbox tree and the requests to try on it, each from the same start state.
 type job struct {
-	tree *davx.Node
-	reqs []davx.Req
-	hist bool // requests form a history (state carries over)
+	tree  *davx.Node
+	reqs  []davx.Req
+	hist  bool // requests form a history (state carries over)
+	fresh bool // rebuild the sandbox before every request
 }
 
 func runJobs(jobs <-chan job, sink *hx.Sink, rootRel []string) {
@@ -61,7 +62,7 @@ func runJobs(jobs <-chan job, sink *hx.Sink, rootRel []string) {
 					sink.Put(davx.Line(sb, before, r, d, o, after))
 					if j.hist {
 						before = after
-					} else if !after.SameShape(before) || (r.Method == "PUT" && o.Status < 300) {
+					} else if j.fresh || !after.SameShape(before) || (r.Method == "PUT" && o.Status < 300) {
 						if err := sb.Reset(j.tree); err != nil {
 							fmt.Fprintln(os.Stderr, "dav: reset:", err)
 							os.Exit(2)
@@ -855,10 +856,154 @@ func stagePutSteps(sink *hx.Sink) {
 	wg.Wait()
 }
 
+// ---- headers: odd Depth / Overwrite / Content-Type values (C01)
+
+func stageHeaders(sink *hx.Sink) {
+	depths := []string{"", "0", "1", "infinity", "2", "-1", "-0", "+0", "+1", "00", "01", "1.0", "0x1", " 1", "1 ", "1,1", "Infinity", "INFINITY", "infinite", "inf", "-2", "10", "1e0", "\x31", "∞", "0,infinity", "noroot", "infinity, noroot"}
+	overwrites := []string{"", "T", "F", "t", "f", "TRUE", "true", "False", "1", "0", "T ", " F", "TF", "T,F", "Y", "N", "X", "yes", "no"}
+	ctypes := []string{"", "text/plain", "application/xml", "text/xml; charset=utf-8", " ", ";", "application/octet-stream"}
+	trees := []*davx.Node{
+		davx.Dir("a", davx.File("x"), "b", davx.Dir("a", davx.File("y"))),
+		davx.Dir("a", davx.Dir("a", davx.File("x"), "b", davx.Dir()), "b", davx.File("y")),
+	}
+	jobs := make(chan job, 16)
+	go func() {
+		for _, t := range trees {
+			var reqs []davx.Req
+			for _, m := range []string{"COPY", "MOVE"} {
+				for _, src := range []string{"/a", "/b", "/zz"} {
+					for _, dst := range []string{"/c", "/b", "/a/c"} {
+						for _, d := range depths {
+							r := davx.NewReq(m, src)
+							r.Dest, r.Depth = dst, d
+							reqs = append(reqs, r)
+						}
+						for _, o := range overwrites {
+							r := davx.NewReq(m, src)
+							r.Dest, r.Overwrite = dst, o
+							reqs = append(reqs, r)
+							r.Depth = "0"
+							reqs = append(reqs, r)
+						}
+					}
+				}
+			}
+			for _, p := range []string{"/", "/a", "/b", "/zz"} {
+				for _, d := range depths {
+					for _, pf := range []string{"none", "propname"} {
+						r := davx.NewReq("PROPFIND", p)
+						r.Depth, r.PfBody = d, pf
+						reqs = append(reqs, r)
+					}
+					// methods that take no Depth ignore it
+					for _, m := range []string{"DELETE", "GET", "MKCOL", "PUT", "OPTIONS"} {
+						r := davx.NewReq(m, p)
+						r.Depth = d
+						r.Body = "z"
+						reqs = append(reqs, r)
+					}
+				}
+				for _, ct := range ctypes {
+					r := davx.NewReq("MKCOL", p+"new")
+					r.CType = ct
+					reqs = append(reqs, r)
+					q := davx.NewReq("PUT", p+"new")
+					q.CType, q.Body = ct, "z"
+					reqs = append(reqs, q)
+				}
+			}
+			jobs <- job{tree: davx.Dir("root", t), reqs: reqs}
+		}
+		close(jobs)
+	}()
+	runJobs(jobs, sink, []string{"root"})
+}
+
+// ---- exotic: OS errors the model does not distinguish — over-long names, over-long
+// paths, symbolic links, the sandbox changing under an upload.  Only what C17 projects
+// (does the answer contain the host path) is compared on these.
+
+func stageExotic(sink *hx.Sink) {
+	long := strings.Repeat("n", 256)
+	long2 := strings.Repeat("L", 300)
+	ok250 := strings.Repeat("k", 250)
+	deep := "/s"
+	deepTree := davx.Dir("leaf", davx.File("x"))
+	for i := 0; i < 15; i++ {
+		deepTree = davx.Dir(ok250, deepTree)
+		deep += "/" + ok250
+	}
+	base := func() *davx.Node {
+		return davx.Dir("a", davx.File("x"), "d", davx.Dir("f", davx.File("y"), "g", davx.Dir("h", davx.File("z"))),
+			"loop", davx.File(davx.LinkMark+"loop"), "dirlink", davx.File(davx.LinkMark+"d"), "dangling", davx.File(davx.LinkMark+"nowhere"),
+			"withlink", davx.Dir("m", davx.File("m"), "l", davx.File(davx.LinkMark+"../d"), "z", davx.File("z")),
+			"s", deepTree)
+	}
+	methods := []string{"OPTIONS", "GET", "HEAD", "PUT", "DELETE", "MKCOL", "COPY", "MOVE", "PROPFIND"}
+	paths := []string{"/" + long, "/" + long2, "/d/" + long, "/a/" + long, "/" + long + "/x", "/loop", "/loop/x", "/dirlink", "/dirlink/f", "/dangling", "/dangling/x",
+		"/withlink", "/withlink/l", "/withlink/l/f", deep, deep + "/leaf", deep + "/" + ok250, "/s", "/d", "/a"}
+	dests := []string{"/" + long, "/d/" + long2, "/new", "/" + strings.Repeat("D", 200), "/loop", "/loop/x", "/dirlink/new", "/dangling", "/withlink/l/new", deep + "/copy", "/a", "/d"}
+	jobs := make(chan job, 16)
+	go func() {
+		var reqs []davx.Req
+		for _, m := range methods {
+			for _, p := range paths {
+				if m == "COPY" || m == "MOVE" {
+					for _, d := range dests {
+						for _, ow := range []string{"", "F"} {
+							for _, dp := range []string{"", "0"} {
+								if m == "MOVE" && dp == "0" {
+									continue
+								}
+								r := davx.NewReq(m, p)
+								r.Dest, r.Overwrite, r.Depth = d, ow, dp
+								reqs = append(reqs, r)
+							}
+						}
+					}
+					continue
+				}
+				r := davx.NewReq(m, p)
+				r.Body = "zz"
+				if m == "PROPFIND" {
+					for _, dp := range []string{"0", "1", "infinity"} {
+						r.Depth = dp
+						reqs = append(reqs, r)
+					}
+					continue
+				}
+				reqs = append(reqs, r)
+			}
+		}
+		// the sandbox changes while the body of a PUT is being received
+		for _, race := range []string{"rmparent", "mkdirtarget", "mkdirfull", "filetarget", "parentfile", "rmroot"} {
+			for _, p := range []string{"/d/new", "/d/f", "/d/g/h", "/d/g/new", "/new", "/a"} {
+				for _, inm := range []string{"", "*"} {
+					r := davx.NewReq("PUT", p)
+					r.Body = "raced body"
+					r.Race = race
+					r.IfNoneMatch = inm
+					reqs = append(reqs, r)
+				}
+			}
+		}
+		// one job per request: every request starts from the same tree
+		for i := 0; i < len(reqs); i += 8 {
+			j := i + 8
+			if j > len(reqs) {
+				j = len(reqs)
+			}
+			jobs <- job{tree: davx.Dir("root", base()), reqs: reqs[i:j], fresh: true}
+		}
+		close(jobs)
+	}()
+	runJobs(jobs, sink, []string{"root"})
+}
+
 func main() {
 	out := flag.String("out", "", "output file")
 	replay := flag.String("replay", "", "file of case lines to re-run")
-	stage := flag.String("stage", "universe", "universe|history|paths|traversal|cond|putfault|putsteps")
+	stage := flag.String("stage", "universe", "universe|history|paths|traversal|cond|putfault|putsteps|headers|exotic")
 	flag.Parse()
 	scratch = os.Getenv("VERIF_SCRATCH")
 	if scratch == "" {
@@ -938,6 +1083,10 @@ func main() {
 		stagePutFault(sink)
 	case "putsteps":
 		stagePutSteps(sink)
+	case "headers":
+		stageHeaders(sink)
+	case "exotic":
+		stageExotic(sink)
 	default:
 		fmt.Fprintln(os.Stderr, "unknown stage")
 		os.Exit(2)
